@@ -61,7 +61,7 @@ type c19Mat struct {
 	keys  []*c19Key // ids 1..4 RSA
 	ec    *c19Key   // id 9
 	junk  []byte
-	table string // Coq term: list (string * (instant * instant))
+	table string            // Coq term: list (string * (instant * instant))
 	abbr  map[string]string // certificate bytes / their base64 -> short label used in observables
 	abbrT string            // Coq term: list (string * string)
 	certs map[string]*x509.Certificate
